@@ -17,6 +17,7 @@ import (
 	"github.com/tikv/client-go/v2/internal/client"
 	"github.com/tikv/client-go/v2/internal/locate"
 	"github.com/tikv/client-go/v2/internal/mockstore/mocktikv"
+	"github.com/tikv/client-go/v2/internal/zz_verif/ksclient"
 	"github.com/tikv/client-go/v2/rawkv"
 	"github.com/tikv/client-go/v2/tikv"
 	"github.com/tikv/client-go/v2/tikvrpc"
@@ -177,13 +178,13 @@ func genRawOps(rng *rand.Rand, n int) []rawOp {
 		case r < 17:
 			ops = append(ops, rawOp{kind: "scan", k: bound(), k2: bound(), n: 1 + rng.Intn(6)})
 		case r < 19:
-			// reverse: explicit upper bound (an unbounded upper end is the known finding F08/F08b of C09/C05)
-			ops = append(ops, rawOp{kind: "rscan", k: pick(), k2: bound(), n: 1 + rng.Intn(6)})
+			// reverse: the request's start key is the upper bound; empty = from the end of the keyspace (seed C05-5)
+			ops = append(ops, rawOp{kind: "rscan", k: bound(), k2: bound(), n: 1 + rng.Intn(6)})
 		default:
 			ops = append(ops, rawOp{kind: "delrange", k: bound(), k2: bound()})
 		}
 	}
-	ops = append(ops, rawOp{kind: "scan", n: 100})
+	ops = append(ops, rawOp{kind: "scan", n: 100}, rawOp{kind: "rscan", n: 100}, rawOp{kind: "rscan", k2: []byte("b"), n: 3})
 	return ops
 }
 
@@ -252,12 +253,20 @@ func genTxns(rng *rand.Rand, n int) []txnCase {
 				}
 				tc.steps = append(tc.steps, txnStep{kind: "iter", k: pick(), k2: up})
 			default:
-				tc.steps = append(tc.steps, txnStep{kind: "riter", k: pick()})
+				// reverse snapshot scan; upper and lower bound each open one time in three (seed C05-5)
+				var up, lo []byte
+				if rng.Intn(3) > 0 {
+					up = pick()
+				}
+				if rng.Intn(3) == 0 {
+					lo = pick()
+				}
+				tc.steps = append(tc.steps, txnStep{kind: "riter", k: up, k2: lo})
 			}
 		}
 		res = append(res, tc)
 	}
-	res = append(res, txnCase{steps: []txnStep{{kind: "iter", k: []byte{0}}}})
+	res = append(res, txnCase{steps: []txnStep{{kind: "iter", k: []byte{0}}, {kind: "riter"}, {kind: "riter", k2: []byte("b")}}})
 	return res
 }
 
@@ -291,7 +300,7 @@ func runTxn(s *tikv.KVStore, tc txnCase) string {
 						}
 					}
 				} else {
-					it, err := txn.IterReverse(st.k, nil)
+					it, err := txn.IterReverse(st.k, st.k2)
 					ierr = err
 					for err == nil && it.Valid() && len(ks) < 50 {
 						ks, vs = append(ks, cp(it.Key())), append(vs, cp(it.Value()))
@@ -342,12 +351,13 @@ func runE2E(seed int64, tier string) {
 	refRawA, refRawB := newMock(), newMock()
 	refTxnA, refTxnB := newMock([]byte("c"), []byte("k")), newMock([]byte("b"))
 
+	// the one-line opt-in other checks' drivers use (package ksclient)
 	mkRaw := func(m *mockCluster, id uint32) *rawkv.Client {
-		pdc, err := locate.NewCodecPDClientWithKeyspace(apicodec.ModeRaw, ksPD{m.pd, ksMeta(id)}, "ks")
+		c, err := ksclient.NewRawClient(m.rpc, m.pd, id)
 		if err != nil {
 			panic(err)
 		}
-		return rawkv.VerifNewClient(kvrpcpb.APIVersion_V2, pdc, &codecRPC{m.rpc, pdc.GetCodec()})
+		return c
 	}
 	mkRawV1 := func(m *mockCluster) *rawkv.Client {
 		pdc := locate.NewCodecPDClient(apicodec.ModeRaw, m.pd)
@@ -394,8 +404,7 @@ func runE2E(seed int64, tier string) {
 
 	// ---- txn
 	mkTxn := func(m *mockCluster, id uint32) *tikv.KVStore {
-		meta := ksMeta(id)
-		s, err := tikv.NewTestKeyspaceTiKVStore(m.rpc, ksPD{m.pd, meta}, nil, nil, 0, *meta)
+		s, err := ksclient.NewTxnStore(m.rpc, m.pd, id)
 		if err != nil {
 			panic(err)
 		}
@@ -424,4 +433,6 @@ func runE2E(seed int64, tier string) {
 	audit("txn", txnAll(shared, []byte{'x'}, []byte{'y'}), txnA, txnB, txnAll(refTxnA, nil, nil), txnAll(refTxnB, nil, nil))
 	_ = cB
 	runRespE2E(seed)
+	runLeaderMove(seed, tier)
+	runFlushRetry(seed)
 }
